@@ -76,20 +76,21 @@ type verifUpload struct {
 }
 
 type verifFakeProxy struct {
-	mu        sync.Mutex
-	seq       int64
-	lists     [][]string // scripted pending-list replies
-	listKinds []int      // outcome kind per list call (default OK)
-	listDelay []int      // milliseconds the proxy takes to answer list call i (default 0)
-	listCalls int
-	listTimes []time.Time
-	afterList func()        // called when the script is exhausted
-	blockList chan struct{} // if non-nil, list calls beyond the script block on it
-	reqs      map[string]*verifStoredReq
-	uploads   []verifUpload
-	upScript  map[string][]int // per ID: outcome of successive upload attempts
-	upCount   map[string]int
-	lastEvent time.Time
+	mu               sync.Mutex
+	seq              int64
+	lists            [][]string // scripted pending-list replies
+	listKinds        []int      // outcome kind per list call (default OK)
+	listDelay        []int      // milliseconds the proxy takes to answer list call i (default 0)
+	listCalls        int
+	listTimes        []time.Time
+	afterList        func()        // called when the script is exhausted
+	blockList        chan struct{} // if non-nil, list calls beyond the script block on it
+	reqs             map[string]*verifStoredReq
+	uploads          []verifUpload
+	upScript         map[string][]int // per ID: outcome of successive upload attempts
+	upCount          map[string]int
+	repeatUserHeader map[string]bool // per ID: the reply to the fetch carries the user-ID field twice (same value)
+	lastEvent        time.Time
 }
 
 func newVerifFakeProxy() *verifFakeProxy {
@@ -191,6 +192,10 @@ func (p *verifFakeProxy) RoundTrip(r *http.Request) (*http.Response, error) {
 		h.Set("X-Inverting-Proxy-Request-Start-Time", time.Now().Format(time.RFC3339Nano))
 		if sr.user != "\x00none" {
 			h.Set("X-Inverting-Proxy-User-ID", sr.user)
+			if p.repeatUserHeader != nil && p.repeatUserHeader[id] {
+				// the asserted identity on two field lines (a proxy or a hop in front of it that repeats the field): still one identity
+				h.Add("X-Inverting-Proxy-User-ID", sr.user)
+			}
 		}
 		return verifResp(r, 200, h, sr.raw), nil
 	case strings.HasSuffix(path, "agent/response"):
@@ -210,7 +215,10 @@ func (p *verifFakeProxy) RoundTrip(r *http.Request) (*http.Response, error) {
 				r.Body.Close()
 				return nil, errors.New("verif: scripted upload failure")
 			}
-			raw, _ = io.ReadAll(r.Body)
+			// read as net/http's transport does (io.Copy with a 32 KiB buffer): the agent's replay buffer hands out end-of-stream
+			// early to a reader whose buffer is smaller than what it has buffered (Props/C06.v C06_small_read_refuted, a latent
+			// defect that no reader in the deployed agent can trigger; io.ReadAll starts with 512 bytes and would)
+			raw = verifReadLikeTransport(r.Body)
 			r.Body.Close()
 		}
 		if kind == verif500 {
@@ -333,4 +341,16 @@ func verifRawRequest(method, tok string, respSize, delayMs int, hdr http.Header,
 	b.WriteString("\r\n")
 	b.Write(body)
 	return b.Bytes()
+}
+
+func verifReadLikeTransport(r io.Reader) []byte {
+	var out []byte
+	buf := make([]byte, 32*1024)
+	for {
+		n, err := r.Read(buf)
+		out = append(out, buf[:n]...)
+		if err != nil {
+			return out
+		}
+	}
 }
